@@ -61,11 +61,62 @@ def real_embed(lines, variant):
     return src, out, val
 
 
+# the line lists of the Examples / former refutation witnesses of Properties/C02.v: replayed first, on the real code
+CORPUS_LINES = [
+    ["query A {", '  echo(s: "it\'s")', "}"],                       # C02_regression_quote
+    ["query A {", '  echo(s: "a\\nb")', "}"],                      # C02_regression_escape
+    ["query A {", '  echo(s: """b""")', "}"],                        # C02_regression_block
+    ["query A {", '  echo(s: """', "  a", "     ", "  b", '  """)', "}"],   # C02_regression_blank_line_of_block_string
+    ["", "\"'=", "", ""],                                            # C02_two_matches_still_round_trip
+    ["query A($v: Int = 3) {", '  echo(s: "a \\n # b = c\\\\ """)', "", "}"],   # C02_embed_hypotheses_satisfiable
+    ["single line"],                                                  # no rewrite at all
+]
+
+
+def source_constants(run):
+    """model data that is literal in Model/*.v, re-derived from /repo's source on every run (fail closed)"""
+    import inspect
+    import re as _re
+
+    from ariadne_codegen import utils
+    from ariadne_codegen.client_generators import client as cg
+    from ariadne_codegen.client_generators import constants as K
+    from ariadne_codegen.contrib import extract_operations as xo
+
+    want = {
+        "MIXIN_NAME": ("mixin", K.MIXIN_NAME), "TYPENAME_FIELD_NAME": ("__typename", K.TYPENAME_FIELD_NAME),
+        "SKIP_DIRECTIVE_NAME": ("skip", K.SKIP_DIRECTIVE_NAME), "INCLUDE_DIRECTIVE_NAME": ("include", K.INCLUDE_DIRECTIVE_NAME),
+    }
+    for k, (model_value, repo_value) in want.items():
+        if model_value != repo_value:
+            run.broken("source constants", f"{k}: model {model_value!r}, /repo {repo_value!r}")
+    src = inspect.getsource(utils.format_multiline_strings)
+    m = _re.search(r're\.finditer\(r"([^"]*)"', src)
+    if not m or m.group(1) != ".*?=.*?('.*?'\\s*){2,}":
+        run.broken("source constants", f"format_multiline_strings regex is {m.group(1) if m else None!r}: Model/Multiline.v find_match models "
+                                       ".*?=.*?('.*?'\\s*){2,}")
+    m = _re.search(r're\.search\(("[^\n]*"), line\)', src)
+    if not m or eval(m.group(1)) != "['\"].*['\"]":  # noqa: S307 (a string literal of /repo's source)
+        run.broken("source constants", f"span regex is {m.group(1) if m else None}: Model/Multiline.v quoted_span models ['\"].*['\"]")
+    sig = inspect.signature(utils.ast_to_str).parameters["multiline_strings_offset"].default
+    if sig != 4:
+        run.broken("source constants", f"multiline_strings_offset default {sig}, model 4")
+    if "offset=0" not in inspect.getsource(xo.ExtractOperationsPlugin._module_to_str):
+        run.broken("source constants", "ExtractOperations no longer formats with offset=0")
+    g = cg.ClientGenerator.__init__
+    srcg = inspect.getsource(g)
+    for needle in ('self._operation_str_variable = "query"', 'self._gql_func_name = "gql"'):
+        if needle not in srcg:
+            run.broken("source constants", f"client generator: {needle!r} not found (model prefix is 8 blanks + 'query = gql(')")
+    run.dist("source_constants", "checked", 9)
+
+
 def k1_multiline(ctx):
     run = ctx.run
+    source_constants(run)
     n = 60000 if ctx.thorough else 12000
     rng = random.Random(ctx.seed * 7919 + 11)
-    cases = []
+    cases = [(ls, v, False) for ls in CORPUS_LINES for v in ("client", "ops")]
     for i in range(n):
         safe = i % 3 == 0
         lines = G.rand_lines(rng, safe)
@@ -113,6 +164,9 @@ def k1_multiline(ctx):
             run.dist("k1_text_matches", {"0": "no-match", "1": "one-match"}.get(m_matches, "several-matches"))
             if kind != "clean":
                 problems.append(f"model does not predict a clean statement ({kind})")
+            # C02_embed_roundtrip on the model's own output: rewritten iff the regex matches, whatever the count
+            if kind == "clean" and not text_roundtrip_ok(("ok", m_ev[1]), lines, k):
+                problems.append("model value is not the text (contradicts C02_embed_roundtrip)")
             if problems:
                 bad += 1
                 if bad <= 5:
@@ -190,6 +244,52 @@ def k2_closure(ctx):
         if got != w:
             run.broken("K2 closure", f"frag_names {got} vs independent closure {w} on {c!r}"[:1500])
     run.dist("k2", "closure-cases", len(cmds))
+
+
+def k2_lexer(ctx):
+    """Gql/Lex.v (the specification lexer of C02_tokens_preserved) vs graphql-core's Lexer on printed operations"""
+    from graphql import Lexer, Source, TokenKind
+
+    run = ctx.run
+    texts = []
+    base = ctx.seed * 100000 + 2000
+    for i in range(40 if ctx.thorough else 8):
+        s = make_base(base + 1000 + i)
+        if s:
+            d = G.decorate(s, base + i, adversarial=True, mixin_field=True, blocks=True) or s
+            texts.append(d.queries)
+    for i in range(20 if ctx.thorough else 6):
+        x = G.structured(base + 7000 + i)
+        if x:
+            texts.append(x.queries + "# a comment, with (punctuation) \"and quotes\"\n")
+    cmds = [[Sym("tokens"), t] for t in texts]
+    res = model.batch("C02", cmds)
+    for t, r in zip(texts, res):
+        run.count()
+        want = []
+        lx = Lexer(Source(t))
+        while True:
+            tk = lx.advance()
+            if tk.kind == TokenKind.EOF:
+                break
+            raw = t[tk.start:tk.end]
+            if tk.kind == TokenKind.SPREAD:
+                want.append(["spread"])
+            elif tk.kind == TokenKind.BLOCK_STRING:
+                want.append(["b", raw[3:-3]])
+            elif tk.kind == TokenKind.STRING:
+                want.append(["s", raw[1:-1]])
+            elif tk.kind in (TokenKind.NAME, TokenKind.INT, TokenKind.FLOAT):
+                want.append(["w", raw])
+            else:
+                want.append(["p", raw])
+        got = None if r == "none" else r[1]
+        if got != want:
+            i = next((k for k, (a, b) in enumerate(zip(got or [], want)) if a != b), min(len(got or []), len(want)))
+            run.broken("K2 lexer", f"Gql/Lex.v and graphql-core disagree at token {i}: {(got or [None])[i:i+2]} vs {want[i:i+2]} "
+                                   f"in {t[:200]!r}")
+        run.dist("k2", "lexer-documents")
+        run.dist("k2_tokens", "compared", len(want))
 
 
 # ====================================================================================== K1b + K3 documents
@@ -606,6 +706,7 @@ def run(ctx):
     ]
     k1_multiline(ctx)
     k2_closure(ctx)
+    k2_lexer(ctx)
     documents(ctx)
     literals(ctx)
     run.sample({"safe_lines": ["query A($v: Int = 3) {", '  echo(s: "a # b = c")', "}"],
